@@ -6,10 +6,21 @@ import collections
 import json
 import xml.etree.ElementTree as ET
 
-from .. import lib, docs, words, lang, refmodel, hist
+from .. import lib, docs, words, lang, refmodel, hist, lex
 
 LEVEL = 'model_checking'
 LIMITS = {'quick': dict(words=10, wordlen=3, values=6, attr_values=3), 'thorough': dict(words=150, wordlen=4, values=10, attr_values=6)}
+
+
+# floats whose repr uses an exponent (tiny and huge magnitudes): the writer has its own code path for them
+EXTRA_FLOATS = [7.1234e-06, 1.2345678e-05, -2.5e-07, 1.25e+16]
+
+
+def extra_floats(T):
+    if T is None or T['kind'] != 'decimal':
+        return []
+    L = lex.Lex(T)
+    return [v for v in EXTRA_FLOATS if L.valid_text(docs.render_value(v), True)]
 
 
 def units(tier):
@@ -34,7 +45,12 @@ def variants(name, tier):
             s = docs.minimal(name)
             s['value'] = v
             out.append(('value:%r' % (v,), s))
+        for v in extra_floats(st):
+            s = docs.minimal(name)
+            s['value'] = v
+            out.append(('value:%r' % (v,), s))
     if c:
+        nd = 0
         for a in c['attrs']:
             T = refmodel.attr_type(lib.MODEL, a)
             vals = [a['fixed']] if a.get('fixed') else docs.representatives(T, lim['attr_values'])
@@ -42,6 +58,12 @@ def variants(name, tier):
                 s = docs.minimal(name)
                 s['attrs'][a['name']] = v
                 out.append(('attr:%s=%r' % (a['name'], v), s))
+            if not a.get('fixed') and nd < 2 and extra_floats(T):
+                nd += 1
+                for v in extra_floats(T):
+                    s = docs.minimal(name)
+                    s['attrs'][a['name']] = v
+                    out.append(('attr:%s=%r' % (a['name'], v), s))
     return out
 
 
@@ -53,6 +75,14 @@ def judge_spec(spec):
             text1 = e.to_string()
     except Exception as ex:
         return 'not-built:' + type(ex).__name__, []
+    # the written value is the value that was stored (names and order of what is written are C04's and C02's matter)
+    root1, ref = ET.fromstring(text1), docs.to_et(spec)
+    if spec['value'] is not None and not docs.same_text(root1.text, ref.text, docs.elem_type(spec['name'])):
+        return 'ok', [('written-value-differs-from-stored', 'stored %r, written %r' % (spec['value'], root1.text))]
+    at = docs.attr_types(spec['name'])
+    for k, v in ref.attrib.items():
+        if k in root1.attrib and not docs.same_text(root1.attrib[k], v, at.get(docs.qname(k)), exact=True):
+            return 'ok', [('written-value-differs-from-stored', '@%s stored %r, written %r' % (docs.qname(k), v, root1.attrib[k]))]
     full1 = '<?xml version="1.0" encoding="UTF-8" standalone="no"?>\n' + text1
     try:
         e2 = docs.parse_file(full1)
